@@ -1,0 +1,54 @@
+//go:build verif
+
+// Contracts for package badger, read by the verifier in /verif (gvc). This file contains no
+// code: it is compiled only under the build tag "verif" and then only declares the package.
+// Syntax: see /verif/DESIGN.md, section 2 and appendix A.
+
+package badger
+
+// ---- entry header (C20, C16) ----
+
+//@ spec hdrLen(h header) int = 2 + ulen(uint64(h.klen)) + ulen(uint64(h.vlen)) + ulen(h.expiresAt)
+//@ lemma ulen-u32: forall x uint64 {ulen(x)} :: x < 1<<32 ==> ulen(x) <= 5
+
+//@ func (header).Encode
+//@   props C20 C16
+//@   requires len(out) >= hdrLen(h)
+//@   ensures[size] result == hdrLen(h)
+//@   ensures[meta] out[0] == h.meta && out[1] == h.userMeta
+//@   ensures[klen] uvLen(out[2:]) == ulen(uint64(h.klen)) && uvVal(out[2:]) == uint64(h.klen)
+//@   ensures[vlen] uvLen(out[2+ulen(uint64(h.klen)):]) == ulen(uint64(h.vlen)) && uvVal(out[2+ulen(uint64(h.klen)):]) == uint64(h.vlen)
+//@   ensures[expiry] uvLen(out[2+ulen(uint64(h.klen))+ulen(uint64(h.vlen)):]) == ulen(h.expiresAt) && uvVal(out[2+ulen(uint64(h.klen))+ulen(uint64(h.vlen)):]) == h.expiresAt
+//@   assigns out[0:hdrLen(h)]
+
+//@ func (*header).Decode
+//@   props C20 C16
+//@   requires len(buf) >= 2 && uvOK(buf[2:]) && uvOK(buf[2+uvLen(buf[2:]):]) && uvOK(buf[2+uvLen(buf[2:])+uvLen(buf[2+uvLen(buf[2:]):]):])
+//@   ensures[meta] h.meta == buf[0] && h.userMeta == buf[1]
+//@   ensures[klen] h.klen == uint32(uvVal(buf[2:]))
+//@   ensures[vlen] h.vlen == uint32(uvVal(buf[2+uvLen(buf[2:]):]))
+//@   ensures[expiry] h.expiresAt == uvVal(buf[2+uvLen(buf[2:])+uvLen(buf[2+uvLen(buf[2:]):]):])
+//@   ensures[size] result == 2+uvLen(buf[2:])+uvLen(buf[2+uvLen(buf[2:]):])+uvLen(buf[2+uvLen(buf[2:])+uvLen(buf[2+uvLen(buf[2:]):]):])
+//@   assigns h.meta, h.userMeta, h.klen, h.vlen, h.expiresAt
+
+// ---- expiry and deletion (C33) ----
+
+//@ func isDeletedOrExpired
+//@   props C33
+//@   ensures[exact] result <==> (meta&bitDelete != 0 || (expiresAt != 0 && expiresAt <= uint64(now)))
+//@   assigns ghost now
+
+// ---- value threshold (C06) ----
+
+//@ func (*Entry).skipVlogAndSetThreshold
+//@   props C06
+//@   ensures[cached] e.valThreshold == (old(e.valThreshold) == 0 ? threshold : old(e.valThreshold))
+//@   ensures[inline] result <==> int64(len(e.Value)) < e.valThreshold
+//@   assigns e.valThreshold
+
+//@ func (*Entry).estimateSizeAndSetThreshold
+//@   props C06 C28
+//@   ensures[cached] e.valThreshold == (old(e.valThreshold) == 0 ? threshold : old(e.valThreshold))
+//@   ensures[inline] int64(len(e.Value)) < e.valThreshold ==> result == int64(len(e.Key)) + int64(len(e.Value)) + 2
+//@   ensures[pointer] int64(len(e.Value)) >= e.valThreshold ==> result == int64(len(e.Key)) + 14
+//@   assigns e.valThreshold
